@@ -188,7 +188,7 @@ func runC09Two(c *Ctx, ch Chooser, cached, reacquire bool) string {
 	}
 	for k, v := range want {
 		if sums[k] != v {
-			fail("delivered-under-own-tags", fmt.Sprintf("tags %s: recorded %d, delivered %d (all deliveries by tags: %v)", k, v, sums))
+			fail("delivered-under-own-tags", fmt.Sprintf("tags %s: recorded %d, delivered %d (all deliveries by tags: %v)", k, v, sums[k], sums))
 			return line
 		}
 	}
